@@ -139,7 +139,10 @@ func c05(tier string, args []string) int {
 		drawStep = 4
 	}
 	// the draw rules inside and at the root of the tree: clocks 97..101, shuffle histories (root = second or third occurrence)
-	for _, f := range append(append([]string{}, small...), mid...) {
+	for i, f := range append(append([]string{}, small...), mid...) {
+		if tier != "thorough" && i < len(small) && i%2 != 0 {
+			continue // quick tier: every second small position
+		}
 		r, _, err := caseRef(f)
 		if err == nil && len(r.LegalMoves()) > 0 {
 			fens = append(fens, f)
@@ -178,6 +181,9 @@ func c05(tier string, args []string) int {
 		// then holds an entry with a move for the root itself and for its successors), searching the position after
 		// that search's best move
 		for hist := 0; hist < 3; hist++ {
+			if hist > 0 && tier != "thorough" && fi%3 != 0 {
+				continue // quick tier: the reused-instance histories on every third position
+			}
 			var reused *search.Search
 			fen := root
 			if hist == 1 {
